@@ -193,6 +193,12 @@ func scenario(x *mc.X, p *Package) {
 		x.Logf("%s: %s (%d law evaluations)", sr.ID, sr.Status, sr.Evals)
 		summary = append(summary, sr.ID+"="+sr.Status)
 		switch sr.Status {
+		case "generator-crash":
+			if p.Mode == ModeLaws {
+				x.Report("generator-crash/"+sr.ID, "gombok crashes (Go panic) on this declaration:\n%s\n%s", sr.Decl, crashHead(sr.Detail))
+			} else {
+				x.Count("skipped-generator-crash(C07)", 1)
+			}
 		case "rejected":
 			// gombok refused the declaration with a diagnostic: not "accepted", so not a violation
 			x.Count("rejected/"+sr.ID, 1)
@@ -270,4 +276,21 @@ func diagnostic(out string) string {
 		}
 	}
 	return ls[0] + ": " + strings.TrimSpace(ls[len(ls)-1])
+}
+
+// crashHead keeps the panic message and the first frames of gombok's stack trace.
+func crashHead(out string) string {
+	ls := strings.Split(out, "\n")
+	start := 0
+	for i, l := range ls {
+		if strings.HasPrefix(l, "panic:") || strings.HasPrefix(l, "fatal error:") {
+			start = i
+			break
+		}
+	}
+	ls = ls[start:]
+	if len(ls) > 14 {
+		ls = ls[:14]
+	}
+	return strings.Join(ls, "\n")
 }
